@@ -7,7 +7,7 @@
 #include "gram.h"
 #include "oracle.h"
 
-#define P_MAXTOK 16
+#define P_MAXTOK 26
 static int p_n;                       /* token count */
 static int p_sym[P_MAXTOK];           /* symbol index of each token (concrete per path) */
 static int p_code[P_MAXTOK];          /* code delivered to yaep (may be symbolic) */
@@ -258,12 +258,15 @@ static void p_observe_errors (void)
 /* input family NEAR(k): a listed (near-)sentence with k symbolic edits (substitute a token kind, or
    delete the token) at symbolic positions */
 static const char *const near_bases[][4] = {
-  /* G1 */ { "aaaaaaaa", "abababab", "aaaabaaa", 0 }, /* G2 */ { "aaaaaaab", "aaab", 0, 0 }, /* G3 */ { "a+a*a+a", "a*a+a*a+a", "a+a+a+a", 0 },
+  /* G1 */ { "aaaaaaaa", "abababab", "aaaabaaa", "aaaaaaaaaaaaaaaaaaaaaaaa" }, /* G2 */ { "aaaaaaab", "aaab", 0, 0 }, /* G3 */ { "a+a*a+a", "a*a+a*a+a", "a+a+a+a", 0 },
   /* G4 */ { "aba", "ab", 0, 0 }, /* G5 */ { "aaabbb", "aabb", "aaaabbb", 0 }, /* G6 */ { "bbbbbba", "bba", 0, 0 }, /* G7 */ { "abbaabba", "abaaba", "aabbbbaa", 0 },
   /* G8 */ { "iixeixex", "iiixexex", 0, 0 }, /* G9 */ { "(a+a)+(a+a)", "(a+(a+a))+a", "a+(a+a+a", 0 }, /* G10 */ { "a;a;a;a;", "a;bbb;a;bbb;", "a;bb;a;", "a;ab;a;a;" },
   /* G11 */ { "axy", "axz", 0, 0 }, /* G12 */ { "xabcyabd", "xabcxabc", "xacyad", "xabcyad" }, /* G13 */ { "aab", "ba", "cca", "ca" }, /* G14 */ { "aaaaaa", "baaaa", "bbaaa", 0 },
   /* G15 */ { "(a+a)*a+a", "a*(a+a)*(a+a)", "a+a*a+a*a+a", "(a+a*(a+a))" }, /* G16 */ { "a;a;a;a;", "a;ba;a;", 0, 0 }, /* G17 */ { "abcd", "bcacdd", 0, 0 }, /* G18 */ { "aa", "a", 0, 0 },
   /* G19 */ { "xabcxabcyabd", "xacyadxacyad", "xabcyabdxabc", "yadyadyad" },
+  /* G20 */ { "nz", "ny", "nx", 0 }, /* G21 */ { "paqraq", "paxpaq", "raeqpaq", "paqpaq" }, /* G22 */ { "aabc", "abc", "aaabc", "aaab" },
+  /* G23 */ { "aaa", "aaaa", "aa", 0 }, /* G24 */ { "(a))", "(at,(a),a)a", "(a,a", "(a,at)" }, /* G25 */ { "bca", "abcd", "bcd", "bcad" },
+  /* G26 */ { "a", 0, 0, 0 }, /* G27 */ { "yyy", "yyyyy", 0, 0 },
 };
 static void p_input_near (int gi, int base, int k)
 {
